@@ -26,8 +26,8 @@ ASSUMPTIONS = [
     "symbolic results are compared after sympy.expand/Poly with symbols identified by name",
 ]
 
-QUICK = ["sys3_q", "sys2_q", "orders_q", "frac_q", "hist_q"]
-THOROUGH = ["sys3_t", "sys2_t", "cstr_t", "orders_t", "frac_t", "phase_t", "feedmap_t", "hist_t"]
+QUICK = ["sys3_q", "sys2_q", "orders_q", "frac_q", "hist_q", "zero_q"]
+THOROUGH = ["sys3_t", "sys2_t", "cstr_t", "orders_t", "frac_t", "phase_t", "feedmap_t", "hist_t", "zero_t"]
 # coverage (vacuity guard) is read on the small slice that takes all three generator actions
 ACTIONS = {
     "frac_q": ["GenAdd", "SetState", "Feed"],
